@@ -1,5 +1,6 @@
 /- Model/C13Gen.lean — the C13 model instantiated with the facts the translator extracted. -/
 import PsutilModel.Model.C13
+import PsutilModel.Model.C13Pct
 import PsutilModel.Generated.C13
 namespace Psutil.C13
 
@@ -22,5 +23,13 @@ def cfg : Cfg :=
     rollupSwap := Gen.C13.rollupPrefixes.getD 2 []
     pmemFields := Gen.C13.pmemFields
     pfullmemFields := Gen.C13.pfullmemFields }
+
+/-- where `memory_percent`'s total comes from, as extracted from the current source -/
+def pcfg : PCfg :=
+  { meminfoFactor := Gen.C13.meminfoFactor
+    totalKey := Gen.C13.meminfoTotalKey
+    freeKey := Gen.C13.meminfoFreeKey
+    pctUsesCache := Gen.C13.pctUsesCache
+    vmStoresTotal := Gen.C13.vmStoresTotal }
 
 end Psutil.C13
